@@ -1,17 +1,21 @@
 #!/bin/bash
-# tools/mk_red.sh <property>: scratch worktree /tmp/red-<P> (built, tests run) and the red-team prompt /tmp/redprompts/<P>.txt
-# holding ONLY the property's text (nothing from /verif).
-P=$1; W=/tmp/red-$P
+# tools/mk_red.sh <property> [round] [focus]: scratch worktree /tmp/red<round>-<P> (built, tests run) and the red-team prompt
+# /tmp/redprompts<round>/<P>.txt holding ONLY the property's text (nothing from /verif); <focus> (optional) names the parts of the
+# property's own text this round should aim at.
+P=$1; R=${2:-}; F=${3:-}; W=/tmp/red$R-$P
 git -C /repo worktree add -q "$W" HEAD || exit 1
 ( cd "$W" && cmake -G Ninja -S . -B _build -DCMAKE_BUILD_TYPE=RelWithDebInfo -DCMAKE_CXX_FLAGS=-Wno-error >/dev/null 2>&1 && cmake --build _build -- -k 0 2>&1 | tail -1 && ctest --test-dir _build -j4 --timeout 900 2>&1 | grep "tests passed" )
-mkdir -p /tmp/redprompts /tmp/redout
-python3 - "$P" <<'PY'
+mkdir -p /tmp/redprompts$R /tmp/redout$R
+python3 - "$P" "$R" "$F" <<'PY'
 import json, sys
-pid = sys.argv[1]
+pid, rnd, focus = sys.argv[1], sys.argv[2], sys.argv[3]
 props = {json.loads(l)['id']: json.loads(l) for l in open('/verif/properties.jsonl')}
 p = props[pid]
 T = open('/verif/tools/red_prompt.txt').read()
-open('/tmp/redprompts/%s.txt' % pid, 'w').write(T.format(wt='/tmp/red-' + pid, id=pid, title=p['title'], statement=p['statement'],
-     q=p['quantifier']['text'], files=', '.join(p['anchors']['files']), out='/tmp/redout'))
+text = T.format(wt='/tmp/red%s-%s' % (rnd, pid), id=pid, title=p['title'], statement=p['statement'],
+     q=p['quantifier']['text'], files=', '.join(p['anchors']['files']), out='/tmp/redout' + rnd)
+if focus:
+    text += "\nIn this round aim your three changes at these parts of the property (other parts were exercised in an earlier round): " + focus + "\n"
+open('/tmp/redprompts%s/%s.txt' % (rnd, pid), 'w').write(text)
 PY
-echo "prompt: /tmp/redprompts/$P.txt"
+echo "prompt: /tmp/redprompts$R/$P.txt"
